@@ -241,6 +241,7 @@ def read_response(data: bytes, contents: Contents, kind: str) -> dict:
     untagged: list = []
     sel = {'exists': None, 'recent': None, 'uidnext': None, 'unseen': None, 'perm': None}
     cond, code = None, None
+    bye = None
     extra: list[bytes] = []
     while not rd.eof():
         if rd.peek() == 0x2b:   # continuation request
@@ -262,8 +263,7 @@ def read_response(data: bytes, contents: Contents, kind: str) -> dict:
             text = rd.line()
             c = _parse_code(text)
             if word == b'BYE':
-                cond = cond or 'BYE*'
-                untagged.append(('BYE',))
+                bye = text
             elif text.endswith(b'Moved.'):
                 untagged.append(('MOVED', c))
             elif c and c[0] == 'UIDNEXT':
@@ -323,7 +323,7 @@ def read_response(data: bytes, contents: Contents, kind: str) -> dict:
     if kind == 'select' and cond == 'OK':
         untagged.insert(0, ('SELECT', sel['exists'], sel['recent'], sel['uidnext'],
                             sel['unseen'], sel['perm']))
-    return {'cond': cond, 'code': code, 'untagged': untagged, 'extra': extra}
+    return {'cond': cond or 'BYE', 'code': code, 'untagged': untagged, 'extra': extra, 'bye': bye}
 
 
 # -------------------------------------------------------------- environments
@@ -1013,6 +1013,8 @@ def gen_cmd(rng, env: Env, ref: PyRef, weights: dict, nextcid) -> dict:
     kinds = list(weights)
     if ref.sel is None and 'select' in weights and rng.random() < 0.85:
         k = rng.choice(['select', 'select', 'select', 'append'])   # mostly leave the BAD state
+    elif ref.sel is None and rng.random() < 0.7:
+        k = 'append'
     else:
         k = rng.choices(kinds, [weights[x] for x in kinds])[0]
     nb = len(env.names)
